@@ -476,6 +476,27 @@ func bridgeCleanupShape() (found, guarded bool) {
 	return true, hasGo && hasTimer && !syncCall
 }
 
+// round 7: (*Dispose).Close tests `closed` inside the critical section it sets it in (no IsClosed() fast path before Lock)
+func disposeLatchShape() (found, atomicLatch bool) {
+	fset := token.NewFileSet()
+	f, err := parser.ParseFile(fset, filepath.Join(repoRoot(), "internal/core/dispose/dispose.go"), nil, 0)
+	if err != nil {
+		return
+	}
+	fd := findMethod(f, "Dispose", "Close")
+	if fd == nil {
+		return
+	}
+	txt := strings.ReplaceAll(nodeText(fset, fd.Body), " ", "")
+	il := strings.Index(txt, "currentLock.Lock()")
+	it := strings.Index(txt, "ifc.closed{")
+	ifast := strings.Index(txt, "IsClosed()")
+	if il < 0 {
+		return
+	}
+	return true, it > il && (ifast < 0 || ifast > il)
+}
+
 func coqBool(b bool) string {
 	if b {
 		return "true"
@@ -537,6 +558,9 @@ func gen() {
 	bcf, bcg := bridgeCleanupShape()
 	fmt.Println("(* Bridge.cleanup runs its final traffic report in a goroutine and waits for it or for a timer *)")
 	fmt.Printf("Definition BridgeCleanupShapeFound : bool := %s.\nDefinition BridgeCleanupReportGuarded : bool := %s.\n", coqBool(bcf), coqBool(bcg))
+	dlf, dla := disposeLatchShape()
+	fmt.Println("(* Dispose.Close tests and sets `closed` inside one critical section *)")
+	fmt.Printf("Definition DisposeLatchShapeFound : bool := %s.\nDefinition DisposeLatchAtomic : bool := %s.\n", coqBool(dlf), coqBool(dla))
 	fmt.Printf("Definition BatchUpdateThreshold : N := %d%%N.\n", int64(constants.BatchUpdateThreshold))
 }
 
